@@ -2,6 +2,9 @@
 EXTENDS TsPack
 Q_Len == (1..400) \cup {551, 552, 553, 735, 736, 737}
 T_Len == 1..1200
-Q_Pts == { <<0,0,0>>, <<0,2,1000>>, <<7,32767,32000>> }
+\* every value of the three top bits (bits 32..30 of the 33-bit clock, first limb) occurs: they share a byte with the
+\* 4-bit prefix and a marker bit; the last value wraps once lal's 63000-tick delay is added
+Q_Pts == { <<0,0,0>>, <<0,2,1000>>, <<1,0,0>>, <<2,5,7>>, <<3,32767,32767>>, <<4,0,1>>, <<5,16384,0>>, <<6,1,32767>>, <<7,0,0>>,
+           <<7,32767,32000>> }
 Q_Cts == { <<0,0,0>>, <<0,0,3600>> }
 =============================================================================
